@@ -308,6 +308,7 @@ static void vh_reset(void)
 
 #define IS(s) (strcmp(op, s) == 0)
 #define NEED(st) if ((st) != S_OK) { printf("bad-op\n"); return; }
+#define CAN_INIT(st) if ((st) == S_OK) { printf("bad-op\n"); return; }
 #define NEED_INITED(st) if ((st) != S_OK && (st) != S_FAILED) { printf("bad-op\n"); return; }
 
 static void evloop_st(char *buf)
@@ -353,6 +354,7 @@ static void vh_op(int argc, char **argv)
 
 	/* ------------------------------------------------------------ sync */
 	if (IS("chan.init")) {
+		CAN_INIT(s_chan); memset(&g_chan, 0, sizeof(g_chan));
 		ENTER(); int r = muggle_channel_init(&g_chan, (muggle_sync_t)a1, (int)a2); LEAVE();
 		s_chan = r == 0 ? S_OK : S_FAILED;
 		sprintf(st, "%c%c%c%c", cell(g_chan.write_mutex), cell(g_chan.read_mutex), cell(g_chan.read_cv), cell(g_chan.blocks));
@@ -365,6 +367,7 @@ static void vh_op(int argc, char **argv)
 		line("void", st); return;
 	}
 	if (IS("rbuf.init")) {
+		CAN_INIT(s_rbuf); memset(&g_rbuf, 0, sizeof(g_rbuf));
 		ENTER(); int r = muggle_ring_buffer_init(&g_rbuf, (muggle_sync_t)a1, (int)a2); LEAVE();
 		s_rbuf = r == 0 ? S_OK : S_FAILED;
 		sprintf(st, "%c", cell(g_rbuf.blocks)); line(RB(r == 0), st); return;
@@ -375,6 +378,7 @@ static void vh_op(int argc, char **argv)
 		sprintf(st, "%c", cell(g_rbuf.blocks)); line("void", st); return;
 	}
 	if (IS("dbuf.init")) {
+		CAN_INIT(s_dbuf); memset(&g_dbuf, 0, sizeof(g_dbuf));
 		ENTER(); int r = muggle_double_buffer_init(&g_dbuf, (int)a1, 1); LEAVE();
 		s_dbuf = r == 0 ? S_OK : S_FAILED;
 		sprintf(st, "%c%c", cell(g_dbuf.buf[0].datas), cell(g_dbuf.buf[1].datas)); line(RB(r == 0), st); return;
@@ -385,6 +389,7 @@ static void vh_op(int argc, char **argv)
 		sprintf(st, "%c%c", cell(g_dbuf.buf[0].datas), cell(g_dbuf.buf[1].datas)); line("void", st); return;
 	}
 	if (IS("abq.init")) {
+		CAN_INIT(s_abq); memset(&g_abq, 0, sizeof(g_abq));
 		ENTER(); int r = muggle_array_blocking_queue_init(&g_abq, (int)a1); LEAVE();
 		s_abq = r == 0 ? S_OK : S_FAILED;
 		sprintf(st, "%c", cell(g_abq.datas)); line(RB(r == 0), st); return;
@@ -395,6 +400,7 @@ static void vh_op(int argc, char **argv)
 		sprintf(st, "%c", cell(g_abq.datas)); line("void", st); return;
 	}
 	if (IS("maring.init")) {
+		CAN_INIT(s_maring);
 		if (!g_maring_backend) { muggle_ma_ring_backend_run(); g_maring_backend = 1; }
 		muggle_ma_ring_ctx_set_capacity(16);
 		muggle_ma_ring_ctx_set_data_size(64);
@@ -412,6 +418,7 @@ static void vh_op(int argc, char **argv)
 
 	/* ------------------------------------------------------------ memory */
 	if (IS("mpool.init")) {
+		CAN_INIT(s_mpool); memset(&g_mpool, 0, sizeof(g_mpool));
 		g_nmblk = 0;
 		ENTER(); bool r = muggle_memory_pool_init(&g_mpool, (uint32_t)a1, (uint32_t)a2); LEAVE();
 		s_mpool = r ? S_OK : S_FAILED;
@@ -451,6 +458,7 @@ static void vh_op(int argc, char **argv)
 		line("void", mpool_st(&g_mpool, st)); return;
 	}
 	if (IS("sowr.init")) {
+		CAN_INIT(s_sowr); memset(&g_sowr, 0, sizeof(g_sowr));
 		ENTER(); int r = muggle_sowr_memory_pool_init(&g_sowr, (muggle_sync_t)a1, (muggle_sync_t)a2); LEAVE();
 		s_sowr = r == 0 ? S_OK : S_FAILED;
 		sprintf(st, "%c", cell(g_sowr.blocks)); line(RB(r == 0), st); return;
@@ -461,7 +469,7 @@ static void vh_op(int argc, char **argv)
 		sprintf(st, "%c", cell(g_sowr.blocks)); line("void", st); return;
 	}
 	if (IS("tsp.init")) {
-		memset(&g_tsp, 0, sizeof(g_tsp));   /* the init function itself does not clear the object */
+		CAN_INIT(s_tsp); memset(&g_tsp, 0, sizeof(g_tsp));
 		ENTER(); int r = muggle_ts_memory_pool_init(&g_tsp, (muggle_sync_t)a1, (muggle_sync_t)a2); LEAVE();
 		s_tsp = r == 0 ? S_OK : S_FAILED;
 		sprintf(st, "%c%c", cell(g_tsp.data), cell(g_tsp.ptrs)); line(RB(r == 0), st); return;
@@ -472,6 +480,7 @@ static void vh_op(int argc, char **argv)
 		sprintf(st, "%c%c", cell(g_tsp.data), cell(g_tsp.ptrs)); line("void", st); return;
 	}
 	if (IS("rmp.init")) {
+		CAN_INIT(s_rmp); memset(&g_rmp, 0, sizeof(g_rmp));
 		ENTER(); int r = muggle_ring_memory_pool_init(&g_rmp, (muggle_sync_t)a1, (muggle_sync_t)a2); LEAVE();
 		s_rmp = r == 0 ? S_OK : S_FAILED;
 		sprintf(st, "%c", cell(g_rmp.blocks)); line(RB(r == 0), st); return;
@@ -482,6 +491,7 @@ static void vh_op(int argc, char **argv)
 		sprintf(st, "%c", cell(g_rmp.blocks)); line("void", st); return;
 	}
 	if (IS("pslot.init")) {
+		CAN_INIT(s_pslot); memset(&g_pslot, 0, sizeof(g_pslot));
 		ENTER(); int r = muggle_pointer_slot_init(&g_pslot, (unsigned int)a1); LEAVE();
 		s_pslot = r == 0 ? S_OK : S_FAILED;
 		sprintf(st, "%c%c", cell(g_pslot.slots), cell(g_pslot.pp_slots)); line(RB(r == 0), st); return;
@@ -492,6 +502,7 @@ static void vh_op(int argc, char **argv)
 		sprintf(st, "%c%c", cell(g_pslot.slots), cell(g_pslot.pp_slots)); line("void", st); return;
 	}
 	if (IS("bbuf.init")) {
+		CAN_INIT(s_bbuf); memset(&g_bbuf, 0, sizeof(g_bbuf));
 		ENTER(); bool r = muggle_bytes_buffer_init(&g_bbuf, (int)a1); LEAVE();
 		s_bbuf = r ? S_OK : S_FAILED;
 		sprintf(st, "%c", cell(g_bbuf.buffer)); line(RB(r), st); return;
@@ -502,6 +513,7 @@ static void vh_op(int argc, char **argv)
 		sprintf(st, "%c", cell(g_bbuf.buffer)); line("void", st); return;
 	}
 	if (IS("fctl.init")) {
+		CAN_INIT(s_fctl); memset(&g_fctl, 0, sizeof(g_fctl));
 		ENTER(); bool r = muggle_flow_ctl_init(&g_fctl, (int64_t)a1, (uint32_t)a2, 0); LEAVE();
 		s_fctl = r ? S_OK : S_FAILED;
 		sprintf(st, "%c", cell(g_fctl.arr)); line(RB(r), st); return;
@@ -514,6 +526,7 @@ static void vh_op(int argc, char **argv)
 
 	/* ------------------------------------------------------------ dsaa: arrays */
 	if (IS("alist.init")) {
+		CAN_INIT(s_alist); memset(&g_alist, 0, sizeof(g_alist));
 		ENTER(); bool r = muggle_array_list_init(&g_alist, (size_t)a1); LEAVE();
 		s_alist = r ? S_OK : S_FAILED;
 		sprintf(st, "%c,c=%llu,n=%llu", cell(g_alist.nodes), (unsigned long long)g_alist.capacity, (unsigned long long)g_alist.size);
@@ -538,6 +551,7 @@ static void vh_op(int argc, char **argv)
 		line(RB(r), st); return;
 	}
 	if (IS("heap.init")) {
+		CAN_INIT(s_heap); memset(&g_heap, 0, sizeof(g_heap));
 		ENTER(); bool r = muggle_heap_init(&g_heap, cmp_ip, (size_t)a1); LEAVE();
 		s_heap = r ? S_OK : S_FAILED;
 		sprintf(st, "%c,c=%llu,n=%llu", cell(g_heap.nodes), (unsigned long long)g_heap.capacity, (unsigned long long)g_heap.size);
@@ -561,6 +575,7 @@ static void vh_op(int argc, char **argv)
 		line(RB(r), st); return;
 	}
 	if (IS("stack.init")) {
+		CAN_INIT(s_stack); memset(&g_stack, 0, sizeof(g_stack));
 		ENTER(); bool r = muggle_stack_init(&g_stack, (size_t)a1); LEAVE();
 		s_stack = r ? S_OK : S_FAILED;
 		sprintf(st, "%c,c=%llu,n=%llu", cell(g_stack.nodes), (unsigned long long)g_stack.capacity, (unsigned long long)g_stack.top);
@@ -597,6 +612,7 @@ static void vh_op(int argc, char **argv)
 
 	/* ------------------------------------------------------------ dsaa: node containers */
 	if (IS("llist.init")) {
+		CAN_INIT(s_llist); memset(&g_llist, 0, sizeof(g_llist));
 		ENTER(); bool r = muggle_linked_list_init(&g_llist, (size_t)a1); LEAVE();
 		s_llist = r ? S_OK : S_FAILED;
 		sprintf(st, "%s,n=%llu", npool_st(g_llist.pool, t), (unsigned long long)g_llist.size); line(RB(r), st); return;
@@ -621,6 +637,7 @@ static void vh_op(int argc, char **argv)
 		sprintf(st, "%s,n=%llu", npool_st(g_llist.pool, t), (unsigned long long)g_llist.size); line(rs ? rs : RB(r), st); return;
 	}
 	if (IS("queue.init")) {
+		CAN_INIT(s_queue); memset(&g_queue, 0, sizeof(g_queue));
 		ENTER(); bool r = muggle_queue_init(&g_queue, (size_t)a1); LEAVE();
 		s_queue = r ? S_OK : S_FAILED;
 		sprintf(st, "%s,n=%llu", npool_st(g_queue.pool, t), (unsigned long long)g_queue.size); line(RB(r), st); return;
@@ -640,6 +657,7 @@ static void vh_op(int argc, char **argv)
 		sprintf(st, "%s,n=%llu", npool_st(g_queue.pool, t), (unsigned long long)g_queue.size); line(rs ? rs : RB(r), st); return;
 	}
 	if (IS("avl.init")) {
+		CAN_INIT(s_avl); memset(&g_avl, 0, sizeof(g_avl));
 		ENTER(); bool r = muggle_avl_tree_init(&g_avl, cmp_ip, (size_t)a1); LEAVE();
 		s_avl = r ? S_OK : S_FAILED;
 		sprintf(st, "%s", npool_st(g_avl.pool, t)); line(RB(r), st); return;
@@ -664,6 +682,7 @@ static void vh_op(int argc, char **argv)
 		sprintf(st, "%s", npool_st(g_avl.pool, t)); line(rs ? rs : RB(r), st); return;
 	}
 	if (IS("htab.init")) {
+		CAN_INIT(s_htab); memset(&g_htab, 0, sizeof(g_htab));
 		ENTER(); bool r = muggle_hash_table_init(&g_htab, (size_t)a1, hash_ip, cmp_ip, (size_t)a2); LEAVE();
 		s_htab = r ? S_OK : S_FAILED;
 		sprintf(st, "%s,t=%c", npool_st(g_htab.pool, t), cell(g_htab.nodes)); line(RB(r), st); return;
@@ -688,6 +707,7 @@ static void vh_op(int argc, char **argv)
 		sprintf(st, "%s,t=%c", npool_st(g_htab.pool, t), cell(g_htab.nodes)); line(rs ? rs : RB(r), st); return;
 	}
 	if (IS("trie.init")) {
+		CAN_INIT(s_trie); memset(&g_trie, 0, sizeof(g_trie));
 		ENTER(); bool r = muggle_trie_init(&g_trie, (size_t)a1); LEAVE();
 		s_trie = r ? S_OK : S_FAILED;
 		sprintf(st, "%s", npool_st(g_trie.pool, t)); line(RB(r), st); return;
@@ -697,14 +717,15 @@ static void vh_op(int argc, char **argv)
 		ENTER(); muggle_trie_destroy(&g_trie, NULL, NULL); LEAVE(); s_trie = S_DESTROYED;
 		sprintf(st, "%c", cell(g_trie.pool)); line("void", st); return;
 	}
-	if (IS("trie.insert") && argc >= 2) {
+	if (IS("trie.insert")) {
 		NEED(s_trie);
-		ENTER(); int r = muggle_trie_insert(&g_trie, argv[1], (void *)1) != NULL; LEAVE();
+		ENTER(); int r = muggle_trie_insert(&g_trie, argc >= 2 ? argv[1] : "", (void *)1) != NULL; LEAVE();
 		sprintf(st, "%s", npool_st(g_trie.pool, t)); line(RB(r), st); return;
 	}
 
 	/* ------------------------------------------------------------ event / net */
 	if (IS("evsig.init")) {
+		CAN_INIT(s_evsig); memset(&g_evsig, 0, sizeof(g_evsig));
 		ENTER(); int r = muggle_ev_signal_init(&g_evsig); LEAVE();
 		s_evsig = r == 0 ? S_OK : S_FAILED;
 		sprintf(st, "%c", fdcell(g_evsig.evfd)); line(RB(r == 0), st); return;
@@ -715,6 +736,7 @@ static void vh_op(int argc, char **argv)
 		sprintf(st, "%c", fdcell(g_evsig.evfd)); line("void", st); return;
 	}
 	if (IS("evloop.new")) {
+		CAN_INIT(s_evloop);
 		muggle_event_loop_init_args_t args;
 		memset(&args, 0, sizeof(args));
 		args.evloop_type = (int)a1; args.use_mem_pool = (int)a2; args.hints_max_fd = (int)a3;
@@ -738,6 +760,7 @@ static void vh_op(int argc, char **argv)
 		evloop_st(st); line(RB(r == 0), st); return;
 	}
 	if (IS("sockh.init")) {
+		CAN_INIT(s_sockh); memset(&g_sockh, 0, sizeof(g_sockh));
 		ENTER(); int r = muggle_socket_evloop_handle_init(&g_sockh); LEAVE();
 		s_sockh = r == 0 ? S_OK : S_FAILED;
 		sprintf(st, "%c%c", cell(g_sockh.ctx_queue), cell(g_sockh.mtx)); line(RB(r == 0), st); return;
@@ -750,6 +773,7 @@ static void vh_op(int argc, char **argv)
 
 	/* ------------------------------------------------------------ log */
 	if (IS("alog.init")) {
+		CAN_INIT(s_alog); memset(&g_alog, 0, sizeof(g_alog));
 		ENTER(); int r = muggle_async_logger_init(&g_alog, (int)a1); LEAVE();
 		s_alog = r == 0 ? S_OK : S_FAILED;
 		sprintf(st, "%c%c", cell(g_alog.channel.write_mutex), cell(g_alog.channel.blocks)); line(RB(r == 0), st); return;
